@@ -25,6 +25,7 @@ type c12Case struct {
 	AuthBackend                     bool
 	LMTP                            bool
 	Fresh                           bool // thorough: each probe on a fresh connection
+	Multi                           string // "" | seq | overlap-plain | overlap-tls: several connections of ONE server whose sessions offer different SASL mechanisms, one after the other / with a second greeting answered while the first one is still being processed
 }
 
 func init() {
@@ -59,7 +60,208 @@ func c12Run(ctx *core.Ctx) {
 				}
 			}
 		}
+		// several connections of one server: what a connection is told depends on its own state and
+		// its own session, not on the connections before it or beside it
+		for m := 0; m < 32; m++ {
+			for _, lm := range []bool{false, true} {
+				for _, multi := range []string{"seq", "overlap-plain", "overlap-tls"} {
+					emit(c12Case{UTF8: m&1 != 0, ReqTLS: m&2 != 0, Binary: m&4 != 0, DSN: m&8 != 0, RRVS: m&16 != 0, Size: []int64{0, 1000}[m%2], MaxRcpt: []int{0, 2}[(m/2)%2],
+						TLS: "available", Insecure: true, AuthBackend: true, LMTP: lm, Multi: multi})
+				}
+			}
+		}
 	}, c12Exec)
+}
+
+// c12Mechs is the SASL mechanism list offered by the n-th session of a server in the
+// multi-connection cases.
+func c12Mechs(sess int) []string {
+	return [][]string{{"VERIF", "OTHER"}, {"VERIF"}, {"THIRD", "VERIF", "FOURTH"}}[sess%3]
+}
+
+// c12Multi: several connections of one server (STARTTLS available, AUTH allowed everywhere, every
+// session offering a different mechanism list). "seq": three connections one after the other, the
+// second one upgraded with STARTTLS and greeted again. "overlap-*": the greeting of connection A
+// is held inside AuthMechanisms while connection B (plaintext / implicit TLS) is greeted and
+// answered; then A's answer is completed. Every reply must be the one the reference function gives
+// for that connection's own state and that session's own mechanism list.
+func c12Multi(ctx *core.Ctx, c c12Case) {
+	ctx.Eval(fmt.Sprintf("%+v", c), true)
+	rig := wire.NewRig(rec.Auth, func(s *smtp.Server) {
+		s.LMTP = c.LMTP
+		s.EnableSMTPUTF8, s.EnableREQUIRETLS, s.EnableBINARYMIME, s.EnableDSN, s.EnableRRVS = c.UTF8, c.ReqTLS, c.Binary, c.DSN, c.RRVS
+		s.MaxMessageBytes = c.Size
+		s.MaxRecipients = c.MaxRcpt
+		s.AllowInsecureAuth = true
+		s.TLSConfig = wire.ServerTLS()
+	})
+	gate := rec.NewGate()
+	defer gate.OpenAll()
+	parkFirst := strings.HasPrefix(c.Multi, "overlap")
+	rig.BE.H.AuthMechs = func(sess int) []string {
+		if parkFirst && sess == 1 {
+			gate.Wait("mechs")
+		}
+		return c12Mechs(sess)
+	}
+	rig.BE.H.Auth = func(sess int, mech string) (sasl.Server, error) { return &verifMech{}, nil }
+	hello := "EHLO"
+	if c.LMTP {
+		hello = "LHLO"
+	}
+	var all []wire.Reply
+	var peers []*wire.Peer
+	failed := false
+	fail := func(sig, msg string) {
+		if failed {
+			return
+		}
+		failed = true
+		ctx.Violate(sig, msg+fmt.Sprintf(" [%+v]", c), c, witness(rig.Log, all))
+	}
+	finish := func() {
+		gate.OpenAll()
+		for _, p := range peers {
+			p.Close()
+		}
+		rig.Finish()
+	}
+	lastSession := func() int {
+		id := 0
+		for _, e := range rig.Log.Events() {
+			if e.Kind == "NewSession" && e.Ph == "b" && e.Sess > id {
+				id = e.Sess
+			}
+		}
+		return id
+	}
+	judge := func(who string, r wire.Reply, sess int, tlsActive bool) {
+		if r.Code != 250 || len(r.Lines) == 0 {
+			fail("C12:ehlo-refused", fmt.Sprintf("%s: %s answered %s", who, hello, r))
+			return
+		}
+		norm := func(in []string) []string {
+			out := append([]string{}, in...)
+			for i, g := range out {
+				if strings.HasPrefix(g, "AUTH ") {
+					m := strings.Fields(g)[1:]
+					sort.Strings(m)
+					out[i] = "AUTH " + strings.Join(m, " ")
+				}
+			}
+			sort.Strings(out)
+			return out
+		}
+		got := norm(r.Lines[1:])
+		var want []string
+		for _, w := range c12Caps(c, tlsActive) {
+			if strings.HasPrefix(w, "AUTH ") {
+				w = "AUTH " + strings.Join(c12Mechs(sess), " ")
+			}
+			want = append(want, w)
+		}
+		want = norm(want)
+		ctx.Add("capability_sets_compared", 1)
+		ctx.Add("capability_sets_compared_with_several_connections_on_one_server", 1)
+		if strings.Join(got, "|") != strings.Join(want, "|") {
+			fail("C12:capabilities-depend-on-other-connections", fmt.Sprintf("%s (session %d, tls active=%v) is told %v; its own state and session give %v", who, sess, tlsActive, got, want))
+		}
+	}
+	greetOn := func(p *wire.Peer) bool {
+		g, err := p.ReadReply()
+		all = append(all, g)
+		return err == nil && g.Code == 220
+	}
+	ehlo := func(p *wire.Peer, name string) wire.Reply {
+		p.SendStr(hello + " " + name + "\r\n")
+		rs, _ := p.ReadUntilStall()
+		all = append(all, rs...)
+		if len(rs) == 0 {
+			return wire.Reply{}
+		}
+		return rs[len(rs)-1]
+	}
+	if c.Multi == "seq" {
+		for k := 0; k < 3 && !failed; k++ {
+			p := rig.Dial()
+			peers = append(peers, p)
+			if !greetOn(p) {
+				fail("C12:greeting", fmt.Sprintf("connection %d was not greeted", k))
+				break
+			}
+			r := ehlo(p, fmt.Sprintf("c%d.test", k))
+			judge(fmt.Sprintf("connection %d", k), r, lastSession(), false)
+			if k == 1 && !failed {
+				p.SendStr("STARTTLS\r\n")
+				if sr, err := p.ReadReply(); err != nil || sr.Code != 220 {
+					fail("C12:starttls", fmt.Sprintf("STARTTLS answered %s (%v)", sr, err))
+					break
+				}
+				if err := p.StartTLSClient(); err != nil {
+					ctx.Inconclusive("C12 multi: STARTTLS handshake failed: " + err.Error())
+					finish()
+					return
+				}
+				p.Raw.WaitPeerIdle(wire.Watchdog)
+				r := ehlo(p, "c1-tls.test")
+				judge("connection 1 inside TLS", r, lastSession(), true)
+			}
+			if k == 0 {
+				p.SendStr("QUIT\r\n")
+				p.ReadAll()
+			}
+		}
+		finish()
+	} else {
+		a := rig.Dial()
+		peers = append(peers, a)
+		if !greetOn(a) {
+			fail("C12:greeting", "connection A was not greeted")
+			finish()
+			return
+		}
+		a.SendStr(hello + " a.test\r\n")
+		if !gate.WaitParked("mechs") {
+			finish()
+			ctx.Inconclusive("C12 multi: AuthMechanisms was not reached by the first greeting")
+			return
+		}
+		// B is greeted and answered while A's greeting is still being processed
+		var b *wire.Peer
+		bTLS := c.Multi == "overlap-tls"
+		if bTLS {
+			var err error
+			b, err = rig.DialTLS()
+			peers = append(peers, b)
+			if err != nil {
+				finish()
+				ctx.Inconclusive("C12 multi: implicit TLS handshake failed: " + err.Error())
+				return
+			}
+		} else {
+			b = rig.Dial()
+			peers = append(peers, b)
+		}
+		if !greetOn(b) {
+			fail("C12:greeting", "connection B was not greeted")
+			finish()
+			return
+		}
+		rb := ehlo(b, "b.test")
+		judge("connection B (greeted while A's greeting is in progress)", rb, 2, bTLS)
+		gate.Open("mechs")
+		ra, _ := a.ReadUntilStall()
+		all = append(all, ra...)
+		if len(ra) == 0 {
+			fail("C12:ehlo-refused", "connection A got no reply to its greeting")
+		} else {
+			judge("connection A (its greeting was in progress while B was answered)", ra[len(ra)-1], 1, false)
+		}
+		finish()
+	}
+	if !failed && ctx.WantSample("multi/"+c.Multi) {
+		ctx.Sample("multi/"+c.Multi, map[string]any{"mode": c.Multi, "lmtp": c.LMTP, "replies": len(all)})
+	}
 }
 
 // c12Caps is the reference capability function.
@@ -99,6 +301,10 @@ func c12Caps(c c12Case, tlsActive bool) []string {
 }
 
 func c12Exec(ctx *core.Ctx, c c12Case) {
+	if c.Multi != "" {
+		c12Multi(ctx, c)
+		return
+	}
 	ctx.Eval(fmt.Sprintf("%+v", c), true)
 	mk := func() *wire.Rig {
 		kind := rec.Plain
